@@ -63,15 +63,15 @@ Definition same_dirs (a b : Z) : bool :=
   Bool.eqb (nz (arm_s a)) (nz (arm_s b)) && Bool.eqb (nz (arm_w a)) (nz (arm_w b)).
 
 (* the demand on a table entry: the glyph is a box character whose arms point in exactly the
-   directions of the mask, and it has exactly the mask's styles whenever Unicode has such a
-   character *)
+   directions of the mask, and every box character that has exactly the mask's arms and styles
+   IS the table's glyph (so the styles are exact whenever Unicode has such a character) *)
 Definition glyph_okb (table : list Z) (m : Z) : bool :=
   let g := nth (Z.to_nat m) table 0 in
   match arms_of_boxchar g with
   | None => false
   | Some a =>
       same_dirs a m &&
-      match exact_glyph m with Some g' => g =? g' | None => true end
+      forallb (fun e => negb (snd e =? m) || (g =? fst e)) boxchars
   end.
 
 Definition table_okb (table : list Z) : bool :=
